@@ -78,7 +78,10 @@ def concretize(c, mark):
             lines.append('file created-%s.txt = x' % ph)
         if ph == c['dphase']:
             vs = DEFECT_VARIANTS.get(c['defect'])
-            line = vs[(c['dpos'] + INSTR_PHASES.index(ph)) % len(vs)] if vs else DEFECT_LINE[c['defect']]
+            if vs and c.get('variant') is not None:
+                line = vs[c['variant'] % len(vs)]
+            else:
+                line = vs[(c['dpos'] + INSTR_PHASES.index(ph)) % len(vs)] if vs else DEFECT_LINE[c['defect']]
             if ph == 'assert' and line.startswith('run '):
                 pass
             lines.insert(c['dpos'] - 1, line)
@@ -160,6 +163,8 @@ def header_swallowed(c, o):
         return False
     lines = o['text'].split('\n')
     vs = DEFECT_VARIANTS['syntax_args']
+    if c.get('variant') is not None and c['dpos'] <= c['base'] and lines:
+        pass
     for j, l in enumerate(lines[:-1]):
         if l in vs and lines[j + 1].startswith('['):
             return True
@@ -173,6 +178,13 @@ def run(ctx):
     ctx.require_coverage(res, ['ReadDocument', 'Exec', 'SymbolReport'])
     exp = ctx.tlc('InvalidExport', cfg(base, invariants=['Export']), workers=1, name='export', count=False)
     cases = exp.printed_json('CASE')
+    if not quick:
+        # every variant of the defect class at every place (the quick tier rotates the variants over the places)
+        more = []
+        for c in cases:
+            for v in range(len(DEFECT_VARIANTS.get(c['defect'], [None]))):
+                more.append(dict(c, variant=v))
+        cases = more
     with ctx.pool() as pool:
         obs = pool.map('harness.props.c03:exec_case', cases, deadline=60, chunk=8)
         sanity = pool.map('harness.props.c03:exec_base',
@@ -186,7 +198,7 @@ def run(ctx):
     bad = 0
     for c, o in zip(cases, obs):
         ctx.count()
-        ctx.nontrivial(json.dumps([c[k] for k in ('defect', 'dphase', 'dpos', 'frontend', 'mode', 'actor')]))
+        ctx.nontrivial(json.dumps([c.get(k) for k in ('defect', 'dphase', 'dpos', 'frontend', 'mode', 'actor', 'variant')]))
         clause = compare(c, o)
         if clause:
             bad += 1
